@@ -62,7 +62,8 @@ CHECKS['C01'] = (
     'mergeElementData_two_ecps (refusal), get?_update_* (which file a metadata field comes from), mem_sortDedupStr (function_types). Tie: the model '
     'composes the same JSON files and must equal the returned dictionary key for key in insertion order (exhaustive over the store in the thorough tier) '
     'and agree on refusals for synthetic directories with one planted inconsistency. An independent recomposition in the harness states the property directly. '
-    'Partial: composeTable = composeSpec is not proved as one theorem; its parts are.',
+    'Refinement theorems: composeElemental_refines / composeElemental_shells (each element of the result is the merge, in component order, of exactly the entries the chain element file -> components designates; the per-file table of the code is invisible) and '
+    'composeTable_refines (elements from the named composed element files, version from the file name, function_types recomputed, metadata merged, schema stamp). Partial: the front end above composeTable (get_basis name/version resolution) is covered by C05.',
     BASE_NOTE + 'CPython json decoding; os.path string handling modelled on ASCII "/"-paths.', '6/C01')
 CHECKS['C05'] = (
     'Lean 4 theorems about the get_basis front-end model (selection = restriction, notation invariance, empty = all, missing element = KeyError, '
@@ -189,7 +190,7 @@ CHECKS['C15'] = (
     'Lean 4 theorems about the bundle listing model over the writer map regenerated from the source (members = README, per expressible (basis, version) one '
     'basis and one reference file with the API texts, notes under the basis\' own name, family notes; gated-out basis sets absent) + differential execution '
     'against create_bundle for zip and tar.bz2',
-    'Proof (on the model): gated_out_absent, entryMembers_spec, notes_named_after_own_basis (the property the repaired defect F4 violated). Tie: model member '
+    'Proof (on the model): bundleMembers_iff (exactly: README, members of expressible basis sets, notes of families that have notes), gated_out_absent, entryMembers_spec, version_files_present, family_notes_always_present (independent of the gate), notes_named_after_own_basis (the property the repaired defect F4 violated). Tie: model member '
     'list (names, order, content hashes) = members read from the real archive; every member byte for byte = get_basis / get_references / notes of the same '
     'sampled directory; no duplicates, nothing else. Partial: archive encoding (zipfile/tarfile/bz2) is glue; name injectivity is not proved.',
     BASE_NOTE + 'zipfile, tarfile.', '6/C15')
